@@ -75,6 +75,7 @@ func checkC21(w *World, r *Run) {
 		r.Check(o.Own, ruleOv, "(*outboxStorage)."+m, T.Obj().Pos(), "own", "promoted from "+o.Via+": bypasses the outbox ordering")
 	}
 	worker := w.SSAFunc(relOutbox, "outboxStorage.maybeProcessOutboxEntries")
+	checkClaimExtensionArgs(w, r, ruleSQL)
 	checkOutboxDrain(w, r, ruleDrain, nil)
 	checkC21Worker(w, r, ruleWorker, worker)
 	checkC21Options(w, r, ruleOpts, mat)
